@@ -92,11 +92,14 @@ def link_target_dir(link_dir, children):
 def materialize(path, children, link_dir=None, hidden_links=()):
     """a child with `symlink: True` is created as a symbolic link to a regular file outside the input tree (in link_dir); a
     directory child with `dirlink: True` as a symbolic link to a directory there.  `hidden_links` (dicts rel/name/children) are
-    further directory links that the abstract tree does not mention: with input.follow_symlinks off they must be invisible"""
+    further directory links that the abstract tree does not mention: with input.follow_symlinks off they must be invisible.
+    A directory child with `alias: <link text>` is a link to another directory of the SAME tree (see add_aliases)"""
     os.makedirs(path, exist_ok=True)
     for c in children:
         p = os.path.join(path, c['name'])
-        if 'children' in c and c.get('dirlink') and link_dir:
+        if 'children' in c and c.get('alias'):
+            if not os.path.lexists(p): os.symlink(c['alias'], p)      # relative, may be made before its target
+        elif 'children' in c and c.get('dirlink') and link_dir:
             if not os.path.lexists(p): os.symlink(link_target_dir(link_dir, c['children']), p)      # a repeated run finds the link in place
         elif 'children' in c: materialize(p, c['children'], link_dir)
         elif c.get('symlink') and link_dir:
@@ -111,6 +114,69 @@ def materialize(path, children, link_dir=None, hidden_links=()):
         d = os.path.join(path, *h['rel'])
         if os.path.isdir(d) and not os.path.lexists(os.path.join(d, h['name'])):
             os.symlink(link_target_dir(link_dir, h['children']), os.path.join(d, h['name']))
+
+
+def add_aliases(g, case, inp):
+    """Directory links that stay INSIDE the input tree (`compat -> core`, `old/api -> ../../new/api`, a second name for an
+    external link), one or several per target, on top of the links the case already has.  input.follow_symlinks is switched on, so
+    every alias is a processed directory of its own with its target's content: the abstract tree carries it as a directory child
+    (dirlink, alias=<link text>) whose children are a copy of the target's -- the resolution the Lean model needs -- while the
+    real code meets two paths with one real directory behind them.  Only acyclic ones: a target is never the link's own directory
+    or an ancestor of it (os.walk would not come back), and no link is planted inside a target (its copies would go stale).
+    Returns the number of links planted."""
+    children = inp['children']
+    for h in inp.pop('hidden_links', []):      # followed links are visible ones
+        ch = children
+        for n in h['rel']: ch = next(c for c in ch if c['name'] == n)['children']
+        ch.append(dict(name=h['name'], children=h['children'], dirlink=True))
+    case['settings']['follow'] = True
+    dirs = [((), children)]; outside = set()
+    def alld(ch, rel):
+        for c in ch:
+            if 'children' in c:
+                dirs.append((rel + (c['name'],), c['children']))
+                if c.get('dirlink'): outside.add(rel + (c['name'],))     # link texts are relative: no link is put into a directory that lives elsewhere
+                else: alld(c['children'], rel + (c['name'],))
+    alld(children, ())
+    targets = dirs[1:]; with_cmake = [d for d in targets if any('children' not in c and c['name'].endswith('.cmake') for c in d[1])]
+    below = lambda rel, top: rel[:len(top)] == top
+    chosen = []; parents = []
+    for _ in range(g.choice([1, 1, 2, 2, 3]) if targets else 0):
+        if chosen and g.random() < 0.4: trel, tch = g.choice(chosen)         # one more link to the same directory
+        else: trel, tch = g.choice(with_cmake if with_cmake and g.random() < 0.75 else targets)
+        if any(below(p, trel) for p in parents): continue
+        ok = [d for d in dirs if d[0] not in outside and not below(d[0], trel) and not any(below(d[0], t[0]) for t in chosen)]
+        sib = [d for d in ok if d[0] == trel[:-1]]
+        if not ok: continue
+        prel, pch = g.choice(sib if sib and g.random() < 0.65 else ok)
+        nm = g.choice(['compat', 'alias', 'lnk', 'zz_old', '0first', 'AA', 'x.lnk', trel[-1] + '2', 'old_' + trel[-1], trel[-1][:-1] or 'q'])
+        if nm in ('.', '..', case.get('nested_name', '_docs')) or any(c['name'].lower() == nm.lower() for c in pch): continue     # nor the output directory's name
+        text = os.path.relpath(os.path.join(os.sep, *trel), os.path.join(os.sep, *prel))
+        pch.insert(g.randint(0, len(pch)), dict(name=nm, children=copy.deepcopy(tch), dirlink=True, alias=text))
+        if all(t[0] != trel for t in chosen): chosen.append((trel, tch))
+        parents.append(prel)
+    return len(parents)
+
+
+def alias_suite(prop, seed, count, out, drv, budget_s=None):
+    """the trees of the tree suite with links between their own directories added (add_aliases), judged by the same check"""
+    import time
+    import s_treeprops as P      # imports this module
+    t0 = time.time(); done = 0
+    for n in range(count):
+        if budget_s and time.time() - t0 > budget_s:
+            out.notes.append(f"alias suite stopped at {done}/{count} (time budget)"); break
+        g = random.Random(f"{prop}/alias/{seed}/{n}")
+        for _ in range(8):
+            case = P.gen_case(g, prop)
+            tgt = case['inputs'][case.get('target', 0)]
+            if tgt['kind'] == 'dir' and add_aliases(g, case, tgt): break
+        else: continue
+        if g.random() < 0.7: case['settings']['recursive'] = True      # without -r no link is ever looked at
+        with impl.Sandbox() as sb:
+            P.check_case(prop, case, sb, drv, (prop, 'alias', seed, n), out)
+        out.dist['aliases'] += 1; done += 1
+    out.suites.append(dict(name='aliases', cases=done))
 
 
 @contextlib.contextmanager
